@@ -118,6 +118,35 @@ def build_surface(V, F):
     return M.mesh.SurfaceMesh(raw)
 
 
+def prepare_scenario(mesh, c, k):
+    """c["pre"] = "compute": the attribute functions store their (persistent) result on the mesh;
+       c["pre"] = "junk": attributes with the colliding names hold arbitrary values (c["junk"]);
+       then the vertices are moved to c["V2"] (if given). Returns what the sampler now SEES."""
+    import mouette as M
+    if c["pre"] == "compute":
+        if k == "surface":
+            M.attributes.face_normals(mesh)
+            M.attributes.face_area(mesh)
+        M.attributes.edge_length(mesh)
+    elif c["pre"] == "junk":
+        j = c["junk"]
+        if k == "surface":
+            at = mesh.faces.create_attribute("normals", float, 3, dense=True)
+            for i in range(len(mesh.faces)):
+                at[i] = M.Vec(*j["normals"][i % len(j["normals"])])
+            at = mesh.faces.create_attribute("area", float, dense=True)
+            for i in range(len(mesh.faces)):
+                at[i] = j["scalars"][i % len(j["scalars"])]
+        at = mesh.edges.create_attribute("length", float, dense=True)
+        for i in range(len(mesh.edges)):
+            at[i] = j["scalars"][i % len(j["scalars"])]
+    for i, p in enumerate(c.get("V2") or []):
+        mesh.vertices[i] = M.Vec(*p)
+    if k == "polyline":
+        return {"V": [vec(v) for v in mesh.vertices], "E": [[int(a), int(b)] for a, b in mesh.edges]}
+    return {"V": [vec(v) for v in mesh.vertices], "F": [[int(x) for x in f] for f in mesh.faces]}
+
+
 def run_case(c):
     import mouette as M
     from mouette import sampling
@@ -136,6 +165,9 @@ def run_case(c):
             else:
                 mesh = build_surface(c["V"], c["F"])
                 mesh_info = {"V": [vec(v) for v in mesh.vertices], "F": [[int(x) for x in f] for f in mesh.faces]}
+        if k in ("polyline", "surface") and c.get("pre"):
+            # multi-step scenario: geometric attributes exist on the mesh BEFORE its vertices move
+            mesh_info = prepare_scenario(mesh, c, k)
         rec.install()
         try:
             if k == "sphere":
